@@ -279,6 +279,7 @@ class _ReadSourceGenerator:
 
         size = 0
         slice_index = 0
+        uses_data = False
         for field, count, _ in info:
             if field is None:
                 # Padding
@@ -298,11 +299,13 @@ class _ReadSourceGenerator:
                 else:
                     getter = f"data[{slice_index}:{slice_index + count}]"
                     slice_index += count
+                    uses_data = True
             elif issubclass(read_type, (Char, Wchar, Int)):
                 getter = f"buf[{size}:{size + read_type.size}]"
             else:
                 getter = f"data[{slice_index}]"
                 slice_index += 1
+                uses_data = True
 
             if issubclass(read_type, (Wchar, Int)):
                 # Types that parse bytes further down to their own type
@@ -343,7 +346,7 @@ class _ReadSourceGenerator:
             size += field_type.size
 
         fmt = _optimize_struct_fmt(info)
-        if fmt == "x" or (len(fmt) == 2 and fmt[0].isdigit() and fmt[1] == "x"):
+        if not uses_data and (fmt == "x" or (len(fmt) == 2 and fmt[1] == "x")):
             unpack = ""
         else:
             unpack = f'data = _struct(cls.cs.endian, "{fmt}").unpack(buf)\n'
